@@ -49,6 +49,9 @@ impl Layer for Contexts {
         if !c.extglob && ["?(", "*(", "+(", "@(", "!("].iter().any(|g| c.p.contains(g)) {
             v.push("dblbracket_extglob_off".to_string());
         }
+        if c.nocase && (c.p.contains("[:upper:]") || c.p.contains("[:lower:]")) {
+            v.push("nocase_with_case_class".to_string());
+        }
         v
     }
     fn shrink_candidates(&self, c: &CtxCase) -> Vec<CtxCase> {
@@ -82,8 +85,25 @@ impl Layer for Contexts {
             env.push((format!("S{i}"), s.clone()));
         }
         let spec = CaseSpec { script: script(c), env, timeout_ms: 10_000, ..Default::default() };
-        let (outcome, pair) = judge(&spec, &DiffCfg::default());
+        let (mut outcome, pair) = judge(&spec, &DiffCfg::default());
         let o = Opts { extglob: c.extglob, nocase: c.nocase };
+        // three-way rule: bash is believed only where the reference matcher agrees with it
+        let bash_out = pair.bash.out_lossy();
+        for (i, s) in c.subjects.iter().enumerate() {
+            match globmodel::matches(&c.p, s, o) {
+                Some(m) => {
+                    let want = format!("{i} case:{}", if m { 1 } else { 0 });
+                    if !bash_out.lines().any(|l| l == want) {
+                        outcome = Outcome::Skip(format!("oracle disagreement (reference matcher vs bash) on subject {i}"));
+                        break;
+                    }
+                }
+                None => {
+                    outcome = Outcome::Skip("pattern outside the model".into());
+                    break;
+                }
+            }
+        }
         let mut labels = vec![];
         if c.p.contains('[') {
             labels.push("bracket".to_string());
@@ -166,7 +186,7 @@ impl Layer for Pathname {
             v.push("extglob_negation".to_string());
         }
         if c.opts.iter().any(|o| o == "nocaseglob") && c.patterns.iter().any(|p| p.contains("[:upper:]") || p.contains("[:lower:]")) {
-            v.push("nocaseglob_case_class".to_string());
+            v.push("nocase_with_case_class".to_string());
         }
         v
     }
